@@ -23,6 +23,13 @@ CRIT_TABLES = {
                           R3=False, R13=False),
                      {"nw": 3, "kind": "stop", "maxfail": 1, "ckind": "started", "k": 1, "async": False},
                      {"max_num_trials_started": 1}),
+    # value / cost criteria: the scripted worker reports metric (7 t + 3 r + 5 i) % 11 and cumulative cost (t + 1) * p
+    "minmetric": (dict(M.BASE, NT=4, Kind="stop", MaxRuns=1, MaxRep=3, CKind="minmetric", K=2, FailB=1, R3=False, R13=False),
+                  {"nw": 2, "kind": "stop", "maxfail": 1, "ckind": "minmetric", "k": 2}, {"min_metric_value": {"m": 2}}),
+    "maxmetric": (dict(M.BASE, NT=3, Kind="pause", MaxRuns=2, MaxRep=2, CKind="maxmetric", K=8, FailB=1, R3=False, R13=False),
+                  {"nw": 2, "kind": "pause", "maxfail": 1, "ckind": "maxmetric", "k": 8, "del": True}, {"max_metric_value": {"m": 8}}),
+    "cost": (dict(M.BASE, NT=4, Kind="stop", MaxRuns=1, MaxRep=3, CKind="cost", K=6, FailB=1, R3=False, R13=False),
+             {"nw": 2, "kind": "stop", "maxfail": 1, "ckind": "cost", "k": 6}, {"max_cost": 6}),
 }
 
 
